@@ -9,14 +9,34 @@
    the end-to-end run of the real stack (tools/props/c02.py, /verif/pairtest), whose oracle checks the
    same three clauses on every trace.
 
+   THE TIE between the two (second half of this file): every recorded real run is mapped to a label list
+   ls and the observations os, fin (tools/props/c02abs.py), and the function `explain` of
+   System/PairTrace.v, extracted (engine pairabs), must accept them.  The C02_explained_* theorems say
+   what acceptance gives: the facts the oracle judges on the real trace follow from the theorems above
+   applied to `run cap iv ls`.  Trusted there: the mapping from trace lines to labels and observations.
+
    Vocabulary:  run cap iv ls        the state after the labels ls
                 db / view            the outstation's current values / the master's last received value
                 received             every (point, value) ever handed to the master's handler
                 created, discarded   events created; ids reported as discarded by overflow
                 queue, delivered     events still buffered; events handed to the handler
-                keeps_snapshot l     l is SendEvents, DeliverEvents or Confirm
-                quiet l              l is neither an Update nor a DeliverEvents *)
-From Dnp3V Require Import System.Pair System.PairProofs.
+                keeps_snapshot l     l is SendEvents, SendSelected, DeliverEvents, Confirm or Overflow
+                quiet l              l is neither an Update nor a DeliverEvents
+   Labels added for the real runs (generalisations; every theorem is about runs with them too):
+                Overflow ids         queued events dropped AND reported (the real buffer has a limit per type)
+                SendSelected ids     a response carrying a selection of the queue (a request for one class)
+   Second half:
+                explain cap iv ls os fin   the abstract run shows at every label what the real trace showed
+                                     there (os), and ends with the database and view the real run ended with (fin)
+                obs_objs / obs_disc / obs_released   of an observation: the objects the real handler received
+                                     (point, admissible value codes) / the ids UpdateInfo reported as discarded /
+                                     the ids event_cleared reported
+                obj_rel (p, v) (q, adm)    p = q and v is one of adm
+                drained_after ls os  some SendEvents with room (n > 0) was observed to carry 0 events and no
+                                     Update follows it
+                settled_points ls    the points p with ls = ls1 ++ TakeSnapshot ps :: ls2 ++ DeliverSnapshot :: ls3
+                                     as in C02_converged_after_quiescence and p in ps *)
+From Dnp3V Require Import System.Pair System.PairProofs System.PairTrace System.PairTraceProofs.
 From Coq Require Import List NArith.
 Import ListNotations.
 Open Scope N_scope.
@@ -91,3 +111,83 @@ Example C02_stale_event_after_snapshot_possible :
               SendEvents 1; DeliverEvents; Confirm] in
   view s 1 = Some 5 /\ db s 1 = 6 /\ queue s = [].
 Proof. exact stale_event_after_snapshot_possible. Qed.
+
+(* ================================================================================================ *)
+(* the tie to the recorded runs of the real stack: what `explain ... = true` gives *)
+
+(* the objects the real handler received are, one for one and in order, `received` of the abstract run *)
+Theorem C02_explained_received : forall cap iv ls os fin,
+  explain cap iv ls os fin = true ->
+  Forall2 obj_rel (received (run cap iv ls)) (flat_map obs_objs os).
+Proof. exact explained_received. Qed.
+Print Assumptions C02_explained_received.
+
+(* oracle clause "fabricated": every object the real handler received carries a value (one of the
+   admissible codes) its point had after some prefix of the explaining run *)
+Theorem C02_explained_nothing_fabricated : forall cap iv ls os fin,
+  explain cap iv ls os fin = true ->
+  forall p adm, In (p, adm) (flat_map obs_objs os) ->
+  exists v, In v adm /\ exists ls1 ls2, ls = ls1 ++ ls2 /\ db (run cap iv ls1) p = v.
+Proof. exact explained_nothing_fabricated. Qed.
+Print Assumptions C02_explained_nothing_fabricated.
+
+(* oracle clause "events|undelivered": once a response with room for an event came back empty and no
+   transaction followed, every event a transaction reported as created (UpdateInfo) and no transaction
+   reported as discarded reached the real handler, with its point and value *)
+Theorem C02_explained_events_reach_handler : forall cap iv ls os fin,
+  explain cap iv ls os fin = true ->
+  drained_after ls os = true ->
+  forall p v i d, In (Update p v true, OUpdate (Some i) d) (combine ls os) ->
+  ~ In i (flat_map obs_disc os) ->
+  exists adm, In (p, adm) (flat_map obs_objs os) /\ In v adm.
+Proof. exact explained_events_reach_handler. Qed.
+Print Assumptions C02_explained_events_reach_handler.
+
+(* oracle clause "events|released-undelivered": an event that event_cleared reported had reached the
+   real handler, with its point and value *)
+Theorem C02_explained_released_were_delivered : forall cap iv ls os fin,
+  explain cap iv ls os fin = true ->
+  forall i, In i (flat_map obs_released os) ->
+  exists e, e_id e = i /\ In e (delivered (run cap iv ls)) /\
+    exists adm, In (e_pt e, adm) (flat_map obs_objs os) /\ In (e_val e) adm.
+Proof. exact explained_released_were_delivered. Qed.
+Print Assumptions C02_explained_released_were_delivered.
+
+(* oracle clause "converged": for a point the explaining run is quiescent for, what Database::get
+   returned (adb) and what the real handler received last (aseen) are images of ONE value: the abstract
+   database's, which is the abstract view *)
+Theorem C02_explained_converged : forall cap iv ls os fin,
+  explain cap iv ls os fin = true ->
+  forall p adb aseen, In (p, (adb, aseen)) fin -> In p (settled_points ls) ->
+  exists v, In v adb /\ In v aseen /\ db (run cap iv ls) p = v /\ view (run cap iv ls) p = Some v.
+Proof. exact explained_converged. Qed.
+Print Assumptions C02_explained_converged.
+
+(* the hypotheses are satisfiable: the demo run with what a trace of it would show *)
+Example C02_demo_explained :
+  let os := [OUpdate (Some 0) []; OUpdate (Some 1) []; OUpdate (Some 2) [0];
+             OSent 2; OHandler [(2, [7]); (1, [6])]; OSilent;
+             OSilent; OSent 2; OHandler [(2, [7]); (1, [6; 9])]; OReleased [1; 2];
+             OHandler [(1, [6]); (2, [7])]; OSent 0] in
+  let fin := [(1, ([6], [6])); (2, ([7], [7; 8]))] in
+  explain 2 (fun _ => 0) demo_run os fin = true /\ drained_after demo_run os = true /\
+  all_settled demo_run fin = true.
+Proof. vm_compute. repeat split. Qed.
+
+(* a run with the labels the real runs need: an overflow of a per-type limit (the discarded event is not
+   the oldest of the queue's other type) and a response for one class *)
+Example C02_demo_explained_generalised :
+  let ls := [Update 1 5 true; Update 2 7 true; Update 1 6 true; Overflow [0]; SendSelected [2]; DeliverEvents;
+             Confirm; TakeSnapshot [1; 2]; SendEvents 1; DeliverEvents; Confirm; DeliverSnapshot; SendEvents 1] in
+  let os := [OUpdate (Some 0) []; OUpdate (Some 1) []; OUpdate (Some 2) []; OOverflow [0]; OSent 1;
+             OHandler [(1, [6])]; OReleased [2]; OSilent; OSent 1; OHandler [(2, [7])]; OReleased [1];
+             OHandler [(1, [6]); (2, [7])]; OSent 0] in
+  let fin := [(1, ([6], [6])); (2, ([7], [7]))] in
+  explain 10 (fun _ => 0) ls os fin = true /\ drained_after ls os = true /\ all_settled ls fin = true.
+Proof. vm_compute. repeat split. Qed.
+
+(* a trace the abstract system cannot produce is rejected: an event released that was never delivered *)
+Example C02_demo_not_explained :
+  explain 10 (fun _ => 0) [Update 1 5 true; SendEvents 1; Confirm]
+          [OUpdate (Some 0) []; OSent 1; OReleased [0]] [] = false.
+Proof. vm_compute. reflexivity. Qed.
